@@ -15,6 +15,12 @@ for name, m in sorted(p.modules.items()):
         if q == "__dups__":
             continue
         d[q] = "c" if isinstance(n, ast.ClassDef) else "f"
+    # module-level variables ("v"): a numeric constant bound at module level
+    # that is not in this table is read through (core._inline_new_constants)
+    for st in m.tree.body:
+        for x in ast.walk(st) if not isinstance(st, (ast.FunctionDef, ast.ClassDef, ast.AsyncFunctionDef)) else []:
+            if isinstance(x, ast.Name) and isinstance(x.ctx, ast.Store):
+                d.setdefault(x.id, "v")
     out[name] = d
 path = os.path.join(os.path.dirname(os.path.dirname(os.path.abspath(__file__))), "rigverif", "known_names.json")
 json.dump(out, open(path, "w"), indent=0, sort_keys=True)
